@@ -247,7 +247,7 @@ theorem shape_wf (font : Font) (text : List Nat) (fuel : Nat) (dir : Nat) {c : C
     · cases e
     · cases e
     · rename_i c1 h1
-      have w1 : WF c1.seg := runRange_spec _ _ _ _ _ (initSeg_wf font text dir) h1
+      have w1 : WF c1.seg := runPhase_spec _ _ _ _ _ _ _ (initSeg_wf font text dir) h1
       split at e
       · cases e
       · rename_i seg' ci' hre
@@ -258,6 +258,6 @@ theorem shape_wf (font : Font) (text : List Nat) (fuel : Nat) (dir : Nat) {c : C
         · rename_i c2 h2
           simp only [Except.ok.injEq, Option.some.injEq, Prod.mk.injEq] at e
           rw [← e.1]
-          exact runRange_spec _ _ _ _ _ w2 h2
+          exact runPhase_spec _ _ _ _ _ _ _ w2 h2
 
 end GrVerif.Pass
